@@ -25,11 +25,38 @@ def ref_interp(tab, vals, req):
     return np.stack(out, axis=-1)
 
 
+def within_single_precision(tab, vals, req, got, delta=4e-7):
+    """radii given in single precision: every conversion of the radius may round it by ~6e-8, which a steep table amplifies.
+    got must lie within the range the interpolant takes over [req*(1-delta), req*(1+delta)] (clamped to the table; the range
+    of a piecewise-linear function over an interval is spanned by its values at the ends and at the knots inside), to 1e-6."""
+    if tab is None or len(tab) < 2:
+        return None
+    tab = np.asarray(tab, float)
+    req = np.asarray(req, float)
+    if np.any(req < tab[0] * (1 - delta)):
+        return None
+    lo = np.full(np.shape(got), np.inf)
+    hi = np.full(np.shape(got), -np.inf)
+    for j, a in enumerate(req):
+        pts = [max(a * (1 - delta), tab[0]), max(a, tab[0]), a * (1 + delta)] + [t for t in tab if a * (1 - delta) < t < a * (1 + delta)]
+        for x in pts:
+            v = np.asarray(O.interp_aperture(tab, vals, x), float)
+            lo[..., j] = np.minimum(lo[..., j], v)
+            hi[..., j] = np.maximum(hi[..., j], v)
+    tol = 1e-6 * np.maximum(np.abs(lo), np.abs(hi))
+    return bool(np.all((got >= lo - tol) & (got <= hi + tol)))
+
+
+SINGLE_CF = [False]
+SINGLE = [False, False]       # the current request of SED.interpolate / interpolate_variable is a single-precision array
+
+
 def install(ctx):
     from sedfitter.convolved_fluxes import ConvolvedFluxes
     from sedfitter.sed import SED
 
     def cf_snapshot(self, apertures):
+        SINGLE_CF[0] = np.asarray(apertures.value).dtype.kind == 'f' and np.asarray(apertures.value).dtype.itemsize < 8
         # fluxes and errors are taken in mJy whatever unit the table holds them in (they may differ from each other)
         return (probe.arr(apertures.to(u.au)), probe.arr(self.flux.to(u.mJy)), None if self.error is None else probe.arr(self.error.to(u.mJy)),
                 probe.arr(self.model_names), None if self.apertures is None else probe.arr(self.apertures.to(u.au)), self.central_wavelength,
@@ -66,7 +93,13 @@ def install(ctx):
             return True
         if ge is None:
             ge = ref_e
-        if gf.shape != ref_f.shape or not O.close(gf, ref_f, 1e-11) or not O.close(ge, ref_e, 1e-11):
+        if SINGLE_CF[0] and gf.shape == ref_f.shape and ge.shape == ref_e.shape:
+            okf = within_single_precision(tab, fl, req, gf)
+            oke = within_single_precision(tab, er, req, ge)
+            mismatch = (okf is False) or (oke is False) or (okf is None and not (O.close(gf, ref_f, 1e-6) and O.close(ge, ref_e, 1e-6)))
+        else:
+            mismatch = gf.shape != ref_f.shape or not O.close(gf, ref_f, 1e-11) or not O.close(ge, ref_e, 1e-11)
+        if mismatch:
             bad = 'above' if tab is not None and np.any(req > tab[-1]) else 'inside'
             ctx.violation('convolved:wrong-interpolant:' + bad, 'interpolated convolved fluxes are not exact-at-knots / linear-between / clamped-above',
                           dict(wit, got=gf[0] if gf.ndim == 2 else gf, expected=ref_f[0]))
@@ -77,6 +110,7 @@ def install(ctx):
         return True
 
     def sed_snapshot(self, apertures):
+        SINGLE[0] = np.asarray(apertures).dtype.kind == 'f' and np.asarray(apertures).dtype.itemsize < 8
         return (np.array(apertures, float, copy=True), probe.arr(self.flux.to(u.mJy)),
                 None if self.apertures is None else probe.arr(self.apertures.to(u.au)), float((1.0 * self.flux.unit).to(u.mJy).value))
 
@@ -95,12 +129,18 @@ def install(ctx):
                 return True
         # a quantity is compared in mJy; bare numbers are in the unit the SED holds its fluxes in
         got = np.asarray(result.to(u.mJy).value, float) if hasattr(result, 'to') else np.asarray(result, float) * per_unit
-        if got.shape != ref.shape or not O.close(got, ref, 1e-11):
+        if SINGLE[0] and got.shape == ref.shape:
+            ok1 = within_single_precision(tab, fl.T, req, got)
+            mismatch = (ok1 is False) or (ok1 is None and not O.close(got, ref, 1e-6))
+        else:
+            mismatch = got.shape != ref.shape or not O.close(got, ref, 1e-11)
+        if mismatch:
             ctx.violation('sed:wrong-interpolant', 'SED interpolated in aperture is not exact-at-knots / linear-between / clamped-above',
                           dict(wit, got=got[:3], expected=ref[:3]))
         return True
 
     def var_snapshot(self, wavelengths, apertures):
+        SINGLE[1] = np.asarray(apertures).dtype.kind == 'f' and np.asarray(apertures).dtype.itemsize < 8
         return (np.array(wavelengths, float, copy=True), np.array(apertures, float, copy=True), probe.arr(self.flux.to(u.mJy)),
                 None if self.apertures is None else probe.arr(self.apertures.to(u.au)), probe.arr(self.wav.to(u.micron)),
                 float((1.0 * self.flux.unit).to(u.mJy).value))
@@ -132,6 +172,14 @@ def install(ctx):
                 else:
                     lo = hi = float(O.interp_aperture(tab, fl[:, i], a))
             tol = 1e-9 * max(abs(lo), abs(hi))
+            if SINGLE[1] and tab is not None and len(tab) > 1 and req[j] <= tab[-1]:
+                # a radius given in single precision: the band between the interpolants at a*(1 -+ 4e-7), to 1e-6
+                v_lo = float(O.interp_aperture(tab, fl[:, i], max(req[j] * (1 - 4e-7), tab[0])))
+                v_hi = float(O.interp_aperture(tab, fl[:, i], min(req[j] * (1 + 4e-7), tab[-1])))
+                lo, hi = min(lo, v_lo, v_hi), max(hi, v_lo, v_hi)
+                tol = 1e-6 * max(abs(lo), abs(hi))
+            elif SINGLE[1]:
+                tol = 1e-6 * max(abs(lo), abs(hi))
             if not (lo - tol <= got[i] <= hi + tol):
                 ctx.violation('variable:wrong-at-filter-wavelength', 'composite SED at a filter wavelength is not the linear interpolant at that filter\'s aperture',
                               dict(wit, wavelength=float(w), aperture=float(req[j]), got=float(got[i]), expected=(lo, hi)))
@@ -170,8 +218,8 @@ def run(ctx):
                'interpolate_variable clamps to 0.999*a_max by design: anything between the interpolants at 0.999*a_max and a_max is accepted',
                'rtol 1e-11 (1e-9 for the composite SED)')
     ctx.require_events('ConvolvedFluxes.interpolate:post', 'SED.interpolate:post', 'SED.interpolate_variable:post', 'variable:node-checked',
-                       'refused:convolved', 'refused:sed', 'refused:variable', 'convolved:same-table-again', 'convolved:table-changed-between-calls', 'convolved:table-without-errors', 'sed:apertures-replaced-between-calls', 'sed:fluxes-replaced-between-calls', 'convolved:apertures-replaced-between-calls')
-    ctx.require_regimes('single-aperture', 'convolved:no-apertures', 'convolved:flux-unit-not-mJy', 'convolved:error-unit-differs', 'sed:desc-wav', 'sed:flux-unit-not-mJy', 'unit:pc', 'unit:cm', 'sed-apertures:cm', 'above-table', 'on-knot')
+                       'refused:convolved', 'refused:sed', 'refused:variable', 'convolved:same-table-again', 'convolved:table-changed-between-calls', 'convolved:table-without-errors', 'sed:apertures-replaced-between-calls', 'sed:fluxes-replaced-between-calls', 'convolved:apertures-replaced-between-calls', 'convolved:request-dtypes')
+    ctx.require_regimes('sed:request-as-integers', 'sed:request-as-float32', 'single-aperture', 'convolved:no-apertures', 'convolved:flux-unit-not-mJy', 'convolved:error-unit-differs', 'sed:desc-wav', 'sed:flux-unit-not-mJy', 'unit:pc', 'unit:cm', 'sed-apertures:cm', 'above-table', 'on-knot')
     n_it = 250 if ctx.quick else 10000
     for it in range(n_it):
         n_ap = int(rng.integers(1, 9))
@@ -222,6 +270,14 @@ def run(ctx):
         wit = {'table': tq, 'request': rq, 'n_models': n_m}
         try:
             first = cf.interpolate(rq)
+            if it % 4 == 1 and n_ap >= 2:
+                # radii given as whole numbers / in single precision
+                try:
+                    cf.interpolate(np.ceil(req).astype(np.int64) * u.au)
+                    cf.interpolate(np.maximum(req.astype(np.float32), np.nextafter(np.float32(tab_au[0]), np.float32(np.inf))) * u.au)
+                    ctx.event('convolved:request-dtypes')
+                except Exception as exc:
+                    ctx.raised(exc, 'convolved:raised:request-dtype', 'ConvolvedFluxes.interpolate raised for radii inside/above the table given as integers / float32: %r' % (exc,), wit)
             first = (probe.arr(first.flux), probe.arr(first.error) if first.error is not None else probe.arr(first.flux))
             if it % 3 == 0:
                 # the same table interpolated again to other radii and to the first ones once more: no state may carry over
@@ -293,6 +349,20 @@ def run(ctx):
         if sunit != 'au':
             req = np.array([a * (1 + 1e-9) if a == tab_s[0] else a for a in req])
         wit = {'table_au': tab_s, 'request_au': req, 'sed_aperture_unit': sunit}
+        # "bare numbers (AU)": whole numbers and single-precision arrays are bare numbers too
+        rdt = ['f8', 'i8', 'f4'][it % 3]
+        req_t = req.copy()
+        if rdt == 'i8' and n_ap >= 2:
+            req_t = np.ceil(req).astype(np.int64)
+            ctx.regime('sed:request-as-integers')
+        elif rdt == 'f4' and n_ap >= 2:
+            req_t = np.maximum(req.astype(np.float32), np.float32(tab_s[0]) if np.float32(tab_s[0]) >= tab_s[0] else np.nextafter(np.float32(tab_s[0]), np.float32(np.inf)))
+            ctx.regime('sed:request-as-float32')
+        try:
+            s.interpolate(req_t.copy())
+        except Exception as exc:
+            ctx.raised(exc, 'sed:raised:%s' % type(exc).__name__, 'SED.interpolate raised for radii inside/above the table given as %s: %r' % (req_t.dtype, exc),
+                       {'table_au': tab_s, 'request_au': req_t, 'request_dtype': str(req_t.dtype)})
         try:
             s.interpolate(req.copy())
             if it % 3 == 0:
@@ -337,6 +407,17 @@ def run(ctx):
         if sunit != 'au':
             fa = np.array([a * (1 + 1e-9) if a == tab_s[0] else a for a in fa])
         wit = {'table_au': tab_s, 'filter_wav': fw, 'filter_ap_au': fa}
+        fa_t = fa.copy()
+        if rdt == 'i8' and n_ap >= 2:
+            fa_t = np.ceil(fa).astype(np.int64)
+        elif rdt == 'f4' and n_ap >= 2:
+            fa_t = np.maximum(fa.astype(np.float32), np.nextafter(np.float32(tab_s[0]), np.float32(np.inf)))
+        if fa_t.dtype != fa.dtype:
+            try:
+                s.interpolate_variable(fw.copy(), fa_t.copy())
+            except Exception as exc:
+                ctx.raised(exc, 'variable:raised:%s' % fa_t.dtype, 'SED.interpolate_variable raised inside the table for apertures given as %s: %r' % (fa_t.dtype, exc),
+                           {'table_au': tab_s, 'filter_wav': fw, 'filter_ap_au': fa_t})
         try:
             s.interpolate_variable(fw.copy(), fa.copy())
         except Exception as exc:
